@@ -456,6 +456,19 @@ def new_args(rng, case, G, cur_args):
     return args, changed
 
 
+def overlay(rng, ents):
+    """a masked constraint (array flag, True) laid over a plain fallback at the same address with `|`: the left, valid
+    mask must win (first entry wins in build_chm).  Only the flag-True overlay: with the flag False the fallback would
+    constrain, which the model's first-match choice maps do not express."""
+    plain = [i for i, (p, v) in enumerate(ents) if not isinstance(v, tuple)]
+    if plain and rng.random() < 0.3:
+        i = rng.choice(plain)
+        p, v = ents[i]
+        ents[i] = (p, ("M", True, v, "ar"))
+        ents.insert(i + 1, (p, v + rng.choice([-2, -1, 1, 2])))
+    return ents
+
+
 def gen_request(rng, case, present, kind):
     core = case["core"]
     if kind == "update":
@@ -472,6 +485,8 @@ def gen_request(rng, case, present, kind):
         st_ = rng.choice([0, 0, 1])
         if core[0] in ("vmap", "scan") and case.get("lens") and case["lens"][0] > 0 and rng.random() < 0.4:
             st_ = 2
+        if st_ != 2:
+            ents = overlay(rng, ents)
         return ("update", ents, st_)
     if kind == "regen":
         return ("regen", rng.choice(case["sels"]) if rng.random() < 0.6 else gen_sel(rng, case["ids"]))
@@ -613,6 +628,8 @@ def run_case(case):
         if core[0] in ("vmap", "scan") and case["lens"] and case["lens"][0] > 0 and rng.random() < 0.4:
             style = 2
             gfi.set_style_n(case["lens"][0])
+        if style != 2:
+            ents = overlay(rng, ents)
 
         def do_gen():
             chm = gfi.build_chm(ents, style)
